@@ -287,3 +287,21 @@ func OkOwnRange(in []span, unit bool) []*span {
 	}
 	return out
 }
+
+// seeded: one function literal per element, all reading the same range variable (C14-25's shape)
+func BadCapturedLoopVar(in []span) []func() float64 {
+	out := make([]func() float64, len(in))
+	for i, s := range in {
+		out[i] = func() float64 { return s.hi - s.lo }
+	}
+	return out
+}
+
+func OkCapturedCopy(in []span) []func() float64 {
+	out := make([]func() float64, len(in))
+	for i := range in {
+		w := in[i].hi - in[i].lo
+		out[i] = func() float64 { return w }
+	}
+	return out
+}
